@@ -78,7 +78,8 @@ func genChain(r *Rand, tier string, try bool) Case {
 
 func (w *chainW) source() string {
 	var b strings.Builder
-	b.WriteString("function mk { err \"e$1\"; out \"t$1\"; return $2 }\n")
+	// two writes to stdout: with a small pipe limit the second one needs somebody to make room
+	b.WriteString("function mk { err \"e$1\"; out \"t$1\"; out \"u$1\"; return $2 }\n")
 	var chain strings.Builder
 	for _, u := range w.Units {
 		switch u.Join {
@@ -241,7 +242,12 @@ func runChain(c *Case, e *Env) Outcome {
 		if ct := crashText(got.Out + got.Err + got.ExecErr); ct != "" {
 			return violation("internal-panic", "program:\n%s\nreported: %s", src, ct)
 		}
-		gotOut := strings.Fields(got.Out)
+		var gotOut []string
+		for _, f := range strings.Fields(got.Out) {
+			if strings.HasPrefix(f, "t") {
+				gotOut = append(gotOut, f)
+			}
+		}
 		gotErr := reMarkE.FindAllString(got.Err, -1)
 		sort.Strings(gotErr)
 		wantErr := append([]string(nil), want.errs...)
